@@ -42,11 +42,42 @@ def cs_jac(f, x, h):
     return J
 
 
-def fd_tolerance(fmax, h, form, J):
-    """|reported - reference| bound: both evaluate the same quotient in float64; the two subtractions and the
-    division differ by at most a few roundings of operands of size fmax -> 16*eps*fmax/h (central: /2h has the
-    same relative effect), plus 1e-12 relative on the quotient itself."""
-    return 16 * EPS * fmax / h + 1e-12 * np.abs(J) + 1e-300
+U = EPS / 2          # unit round-off of float64
+
+# Relative round-off budget of one evaluation of g (in units of U): 'lin' 0, 'sq' one rounding, 'sin' =
+# sin(x) + 2x with sin accurate to 4 ulp = 8U (NumPy's SIMD kernels; glibc is < 1 ulp), 2x exact, one rounding
+# for the sum of two positive numbers -> at most 9U.
+G_ROUNDOFF_U = 9
+
+
+def eval_roundoff(S, nterms):
+    """Bound of |computed f_o - exact f_o| for ONE evaluation of f_o = sum_j a_oj g(x_j) with `nterms` terms.
+
+    S is the sum of the operand magnitudes, S_o = sum_j |a_oj| |g(x_j)| (NOT |f_o|: f may cancel; the witness
+    that motivated this had |f| = 1.8e-3 with S = 4.2).  Standard bound for an inner product (Higham, Accuracy
+    and Stability of Numerical Algorithms, section 3.1): every term carries the error of g (<= G_ROUNDOFF_U), one
+    rounding of the product and at most nterms - 1 roundings of partial sums, IN ANY SUMMATION ORDER (with or
+    without FMA):   |error| <= (nterms - 1 + 1 + G_ROUNDOFF_U) U S_o   to first order in U.
+    The order does differ between the two evaluations that are compared: under force_alloc_complex=True the
+    component sees its inputs as a stride-16 real view of a complex array and ndarray.dot takes another kernel
+    than for the contiguous array of the harness (observed: 0.35 eps S between the two)."""
+    return (nterms + G_ROUNDOFF_U) * U * np.asarray(S, dtype=float)
+
+
+def fd_tolerance(eval_err, h, form, J):
+    """Bound of |reported quotient - harness quotient| when both implement the documented formula.
+
+    Both perturb the same float64 x_j by the same float64 h, so fl(x_j +- h) is the SAME number in both (one IEEE
+    addition; OpenMDAO restores the inputs from a copy after every point, there is no drift): the representation
+    error of x + h contributes nothing to the difference.  What differs is the round-off of the function values:
+    each quotient uses two evaluations (f(x+h), f(x) | f(x), f(x-h) | f(x+h), f(x-h)), each off by at most
+    `eval_err` (see eval_roundoff; array broadcastable to J), so the two numerators differ by at most
+    4 eval_err and the quotients by 4 eval_err / h (forward, backward) or 4 eval_err / (2h) (central).
+    The remaining operations (the subtraction of two nearby numbers, the division by h in the harness; in OpenMDAO
+    r = y0 - f(x+-h), the products coeff * r with coeff = fl(+-1/h) or fl(+-0.5/h), their sum and the final sign
+    flip) are a handful of roundings RELATIVE to the quotient: covered by 1e-12 |J|."""
+    den = 2 * h if form == 'central' else h
+    return 4 * np.asarray(eval_err, dtype=float) / den + 1e-12 * np.abs(J) + 1e-300
 
 
 def error_arrays(Jf, Jd, atol, rtol):
